@@ -166,6 +166,9 @@ impl FileSystem for MemoryFS {
     fn read_dir(&self, path: &str) -> VfsResult<Box<dyn Iterator<Item = String> + Send>> {
         let prefix = format!("{}/", path);
         let handle = self.handle.read().unwrap();
+        if let Some(file) = handle.files.get(path) {
+            ensure_dir(file)?;
+        }
         let mut found_directory = false;
         #[allow(clippy::needless_collect)] // need collect to satisfy lifetime requirements
         let entries: Vec<_> = handle
@@ -232,7 +235,11 @@ impl FileSystem for MemoryFS {
     fn create_file(&self, path: &str) -> VfsResult<Box<dyn SeekAndWrite + Send>> {
         self.ensure_has_parent(path)?;
         let content = Arc::new(Vec::<u8>::new());
-        self.handle.write().unwrap().files.insert(
+        let mut handle = self.handle.write().unwrap();
+        if let Some(existing) = handle.files.get(path) {
+            ensure_file(existing)?;
+        }
+        handle.files.insert(
             path.to_string(),
             MemoryFile {
                 file_type: VfsFileType::File,
@@ -253,6 +260,7 @@ impl FileSystem for MemoryFS {
     fn append_file(&self, path: &str) -> VfsResult<Box<dyn SeekAndWrite + Send>> {
         let handle = self.handle.write().unwrap();
         let file = handle.files.get(path).ok_or(VfsErrorKind::FileNotFound)?;
+        ensure_file(file)?;
         let mut content = Cursor::new(file.content.as_ref().clone());
         content.seek(SeekFrom::End(0))?;
         let writer = WritableFile {
@@ -312,10 +320,9 @@ impl FileSystem for MemoryFS {
 
     fn remove_file(&self, path: &str) -> VfsResult<()> {
         let mut handle = self.handle.write().unwrap();
-        handle
-            .files
-            .remove(path)
-            .ok_or(VfsErrorKind::FileNotFound)?;
+        let file = handle.files.get(path).ok_or(VfsErrorKind::FileNotFound)?;
+        ensure_file(file)?;
+        handle.files.remove(path);
         Ok(())
     }
 
@@ -367,6 +374,13 @@ struct MemoryFile {
 fn ensure_file(file: &MemoryFile) -> VfsResult<()> {
     if file.file_type != VfsFileType::File {
         return Err(VfsErrorKind::Other("Not a file".into()).into());
+    }
+    Ok(())
+}
+
+fn ensure_dir(file: &MemoryFile) -> VfsResult<()> {
+    if file.file_type != VfsFileType::Directory {
+        return Err(VfsErrorKind::Other("Not a directory".into()).into());
     }
     Ok(())
 }
